@@ -57,10 +57,11 @@ type c38Call struct {
 	pre, post c38Env
 	ans       []byte
 	fail      bool
+	late      bool // the error surfaces only after the consumer returned nil
 }
 
 func (k c38Call) coq() string {
-	return fmt.Sprintf("(mkCall %s %s %s)", k.pre.coq(), coqOpt(!k.fail, coqHex(k.ans)), k.post.coq())
+	return fmt.Sprintf("(mkCall %s %s %s %s)", k.pre.coq(), coqOpt(!k.fail, coqHex(k.ans)), k.post.coq(), coqBool(k.late && !k.fail))
 }
 
 type c38Backend struct {
@@ -91,9 +92,24 @@ func (b *c38Backend) Load(_ context.Context, _ backend.Handle, length int, offse
 	if k.fail {
 		return errors.New("verif: backend load failed")
 	}
-	if int64(len(k.ans)) < offset+int64(length) {
+	if int64(len(k.ans)) < offset+int64(length) && !k.late {
 		k.post.apply(b.path)
 		return errors.New("verif: out of range")
+	}
+	if k.late {
+		// stream what there is (a short stream), let the consumer finish, then report the error
+		d := k.ans
+		if offset < int64(len(d)) {
+			d = d[offset:]
+		} else {
+			d = nil
+		}
+		if length > 0 && length < len(d) {
+			d = d[:length]
+		}
+		_ = fn(bytes.NewReader(d))
+		k.post.apply(b.path)
+		return errors.New("verif: unexpected EOF after the consumer returned")
 	}
 	d := k.ans[offset:]
 	if length > 0 {
@@ -282,6 +298,7 @@ func engineC38(c *vctx) error {
 		}
 		return c38Env{kind: 2, data: corrupt(rng, truth)}
 	}
+	honestFaults := false
 	randScript := func(rng *vrng, truth []byte, clean bool) []c38Call {
 		n := rng.intn(4)
 		if clean {
@@ -297,6 +314,15 @@ func engineC38(c *vctx) error {
 				if rng.chance(15) {
 					s[i].pre = c38Env{kind: 2, data: truth}
 				}
+				if honestFaults {
+					switch rng.intn(8) {
+					case 0:
+						s[i].fail = true
+					case 1, 2:
+						s[i].late = true
+						s[i].ans = append([]byte{}, truth[:rng.intn(len(truth))]...) // strictly short: LoadRaw hashes what the consumer saw even on error
+					}
+				}
 				continue
 			}
 			s[i] = c38Call{pre: randEnv(rng, truth, 85), post: randEnv(rng, truth, 75), ans: truth}
@@ -305,6 +331,9 @@ func engineC38(c *vctx) error {
 				s[i].fail = true
 			case 1, 2:
 				s[i].ans = corrupt(rng, truth)
+			case 3:
+				s[i].late = true
+				s[i].ans = append([]byte{}, truth[:rng.intn(len(truth))]...) // strictly short: LoadRaw hashes what the consumer saw even on error
 			}
 		}
 		return s
@@ -352,6 +381,34 @@ func engineC38(c *vctx) error {
 						{raw: true, script: []c38Call{{ans: truth2, post: c38Env{kind: 2, data: truth2[:1]}}, {ans: truth2}, {ans: truth2}}},
 					})
 				}
+				if t.raw && variant == 0 {
+					// a Forget that finds nothing to remove must not spend the once-only breaker:
+					// failed load while uncached -> retry caches -> cached copy corrupted later -> healed
+					tr := mkTruth(rng)
+					okr := c38Call{ans: tr}
+					bad := append([]byte{}, tr...)
+					bad[len(bad)-1] ^= 0x10
+					runCase("corpus-raw-fail-then-corrupt", t, tr, c38Env{}, []c38Op{
+						{raw: true, script: []c38Call{{fail: true}, okr}},
+						{raw: true, before: c38Env{kind: 2, data: bad}, script: []c38Call{okr, okr}},
+						{raw: true, script: []c38Call{okr}},
+					})
+					// a download that fails after streaming a prefix must leave nothing cached
+					tl := mkTruth(rng)
+					okl := c38Call{ans: tl}
+					runCase("corpus-late-error", t, tl, c38Env{}, []c38Op{
+						{len: 0, off: 0, script: []c38Call{{ans: tl[:len(tl)-1], late: true}}},
+						{len: 0, off: 0, script: []c38Call{okl, okl}},
+						{len: 1, off: len(tl) - 1, before: c38Env{kind: 1}, script: []c38Call{{ans: tl[:1], late: true}, okl}},
+						{len: 1, off: len(tl) - 1, script: []c38Call{okl, okl}},
+					})
+					tl2 := mkTruth(rng)
+					okl2 := c38Call{ans: tl2}
+					runCase("corpus-late-error-raw", t, tl2, c38Env{}, []c38Op{
+						{raw: true, script: []c38Call{{ans: tl2[:2], late: true}, {ans: tl2[:2], late: true}}},
+						{raw: true, script: []c38Call{okl2, okl2}},
+					})
+				}
 				truth3 := mkTruth(rng)
 				if c0.kind == 2 && variant == 1 {
 					c0.data = truth3
@@ -392,8 +449,13 @@ func engineC38(c *vctx) error {
 		nops := 1 + rng.intn(3)
 		ops := make([]c38Op, nops)
 		kind := "random"
+		honestFaults = false
 		if clean {
 			kind = "clean"
+			if rng.bool() {
+				kind = "honest"
+				honestFaults = true
+			}
 		}
 		for i := range ops {
 			o := c38Op{script: randScript(rng, truth, clean)}
